@@ -182,3 +182,98 @@ def b2(prog):
     if n < 60:
         raise Broken("only %d exported functions without an error parameter (floor 60)" % n)
     return inst, findings
+
+
+def t1(prog):
+    """an exception object that is constructed but not thrown is an error path that reports nothing"""
+    inst, findings = [], []
+    n = 0
+    for f in prog.funcs.values():
+        rel = prog.rel(f["file"])
+        if not (rel.startswith("libzwerg/") or rel.startswith("dwgrep/")) or "/test-" in rel:
+            continue
+        for b in walk(f.get("body")):
+            if b.get("k") != "block":
+                stmts = []
+                if b.get("k") in ("case", "default", "label") and isinstance(b.get("sub"), dict):
+                    stmts = [b["sub"]]
+                elif b.get("k") == "if":
+                    stmts = [b.get("then"), b.get("else")]
+                elif b.get("k") in ("while", "for", "do", "rfor"):
+                    stmts = [b.get("body")]
+            else:
+                stmts = b["s"]
+            for st in stmts:
+                if not isinstance(st, dict):
+                    continue
+                u = st
+                while isinstance(u, dict) and u.get("k") == "ctor" and u.get("cm") and len(u["a"]) == 1:
+                    u = u["a"][0]
+                if isinstance(u, dict) and u.get("k") == "ctor" and (u.get("c", "").endswith(("_error", "exception")) or
+                                                                    any(x.endswith(("std::exception", "_error")) for x in prog.bases(u.get("c", "")))):
+                    n += 1
+                    findings.append({"key": "T1:%s:%s" % (f["q"], u.get("c")), "where": u.get("l") or f["l"],
+                                     "msg": "%s constructs a %s and discards it (missing `throw`): the failure it describes is not reported and execution continues" % (f["q"], u.get("c")),
+                                     "detail": None})
+    total = sum(1 for f in prog.funcs.values() for x in walk(f.get("body")) if x.get("k") == "throw")
+    inst.append(("T1:throw-sites", {"throw_expressions": total, "discarded_exception_objects": n}))
+    if total < 20:
+        raise Broken("fewer throw expressions than confirmed by hand (20): %d" % total)
+    return inst, findings
+
+
+def b3(prog):
+    """parse_subquery hands out the tree only when yyparse reported success; every other outcome throws"""
+    from cfg import CFG
+    inst, findings = [], []
+    fs = [f for f in prog.by_q.get("parse_subquery", []) if any(c.get("fn") == "yyparse" for c in calls(f["body"]))]
+    if len(fs) != 1:
+        raise Broken("anchor parse_subquery (the caller of yyparse) vanished")
+    f = fs[0]
+    g = CFG(f)
+
+    def mentions_yyparse(e):
+        return isinstance(e, dict) and any(c.get("fn") == "yyparse" for c in calls(e))
+    # variables holding the result
+    resvars = set()
+    for x in walk(f["body"]):
+        if x.get("k") == "decl":
+            for v in x["vars"]:
+                if mentions_yyparse(v.get("init")):
+                    resvars.add(v["id"])
+
+    def is_result(e):
+        u = unwrap(e)
+        return mentions_yyparse(e) or (isinstance(u, dict) and u.get("k") == "ref" and u.get("id") in resvars)
+
+    def success_edge(n, lab):
+        if n.kind == "cond" and isinstance(n.ast, dict):
+            c = n.ast
+            if c.get("k") == "bin" and c.get("op") in ("==", "!=") and (is_result(c["lhs"]) or is_result(c["rhs"])):
+                other = c["rhs"] if is_result(c["lhs"]) else c["lhs"]
+                z = unwrap(other)
+                if isinstance(z, dict) and z.get("k") == "int" and z["v"] == 0:
+                    return lab is (c["op"] == "==")
+            if is_result(c):
+                return lab is False
+        if n.kind == "switch" and is_result(n.ast):
+            if isinstance(lab, tuple) and lab[0] == "case":
+                return lab[1] == 0
+            if lab in ("default", "nomatch"):
+                listed = {l[1] for _, l in n.succs if isinstance(l, tuple) and l[0] == "case"}
+                return 0 not in listed and listed >= {1, 2}
+        return False
+    succ_nodes = [n for n in g.nodes if n.kind in ("cond", "switch") and (is_result(n.ast) if n.kind == "switch" else any(success_edge(n, l) for _, l in n.succs))]
+    if not succ_nodes:
+        raise Broken("parse_subquery no longer tests the result of yyparse in a recognisable way")
+    # fall-through between case groups is already in the CFG: returns reachable without taking a success edge are violations
+    reach = g.reachable(edge_ok=lambda n, t, lab: not success_edge(n, lab))
+    bad = [n for n in g.nodes if n.id in reach and n.kind == "ret"]
+    falls = any(t == g.exit.id and n.kind not in ("ret",) for n in g.nodes if n.id in reach for t, _ in n.succs)
+    key = "B3:parse_subquery"
+    inst.append((key, {"returns_without_success": [n.loc for n in bad]}))
+    if bad or falls:
+        findings.append({"key": key, "where": (bad[0].loc if bad else f["l"]),
+                         "msg": "parse_subquery can return the parse tree although yyparse did not report success (a failed parse leaves the tree pointer null: crash instead of an error object)",
+                         "detail": None})
+    return inst, findings
